@@ -159,6 +159,8 @@ func (p Prog) String() string {
 			fmt.Fprintf(&sb, "%s(%d,%d);", a.Op, a.K, a.V)
 		case "log":
 			fmt.Fprintf(&sb, "log(%d);", a.K)
+		case "logt":
+			fmt.Fprintf(&sb, "log(tload(%d));", a.K)
 		case "call":
 			fmt.Fprintf(&sb, "%s(%d,v%d,g%d);", a.Kind, a.Target, a.Value, a.Gas)
 		case "callcreated":
@@ -429,6 +431,8 @@ func coqProg(p Prog) string {
 			acts = append(acts, fmt.Sprintf("ATstore %d %d", a.K, a.V))
 		case "log":
 			acts = append(acts, fmt.Sprintf("ALog %d", a.K))
+		case "logt":
+			acts = append(acts, fmt.Sprintf("ALogT %d", a.K))
 		case "call":
 			acts = append(acts, fmt.Sprintf("ACall %s %d %d", kk[a.Kind], a.Target, a.Value))
 		case "callcreated":
